@@ -152,7 +152,11 @@ Dg(i) == ToString(i)
 
 ---------------------------------------------------------------------------
 (* the generator: deterministic choice driven by a number stream *)
-Mix(r, i) == (r * 75 + i * 7919 + 74) % 65537
+\* (quadratic, so that streams Mix(r, i), Mix(r, j) are not related by a constant; everything stays below 2^31)
+M0 == 46337
+Mix(r, i) == LET x == (r * 37 + i * 1013 + 11) % M0
+                 y == (x * x) % M0
+             IN (y * 31 + x * 17 + i * 7) % M0
 Pick(r, seq) == seq[(r % Len(seq)) + 1]
 LitW == <<"1", "1", "2", "0", "-1", "1.0", "'a'", "'a'", "'ab'", "b'a'", "None", "True", "False">>
 ValW == <<"K.i1", "K.i1", "K.i1", "K.sa", "K.sa", "K.E", "K.E", "K.E", "K.none", "K.k">>
@@ -213,7 +217,7 @@ GenCase(r, last) == LET g == Mix(r, 1) % 3 = 0
                     IN [p |-> Gen(d, Mix(r, 3), FALSE, ~last /\ ~g), g |-> g]
 RECURSIVE GenCases(_, _, _)
 GenCases(r, n, j) == IF j > n THEN <<>> ELSE <<GenCase(Mix(r, 10 + j), j = n)>> \o GenCases(r, n, j + 1)
-GenStmt(k) == LET r == (k * 7919 + Seed * 10007 + 13) % 65537
+GenStmt(k) == LET r == Mix((k * 7919 + Seed * 10007 + 13) % M0, 0)
               IN [id |-> k, cases |-> GenCases(r, 1 + (Mix(r, 9) % MaxCases), 1)]
 
 ---------------------------------------------------------------------------
